@@ -193,7 +193,7 @@ func replayCorpus(repo string) map[string][]string {
 			return true
 		})
 	}
-	shell := []string{"a", " ", "\n", ";", "&", "|", "(", ")", "<", ">", "<<", "<<-", "-", "'", "\"", "\\", "$", "${", "}", "{", "`", "#", "=", "~", "*", "?", "[", "]", ":", "%", "+", "!", "0", "1", "é", "\xff",
+	shell := []string{"a", "c", "h", " ", "\n", ";", "&", "|", "(", ")", "<", ">", "<<", "<<-", "-", "'", "\"", "\\", "$", "${", "}", "{", "`", "#", "=", "~", "*", "?", "[", "]", ":", "%", "+", "!", "0", "1", "é", "\xff",
 		"if ", "then ", "fi", "for ", "in ", "do ", "done", "case ", "esac", "while ", "E\n", "x=", "$x", "$((", "))", "$(", "/"}
 	var seqs []string
 	for _, a := range shell {
@@ -331,6 +331,8 @@ func aliasEnv() *interp.ExecEnv {
 	env.Aliases["b"] = "a"
 	env.Aliases["if"] = "x"
 	env.Aliases["é"] = "é "
+	env.Aliases["c"] = "echo $(date) $((1+2)) "
+	env.Aliases["h"] = "cat <<E"
 	return env
 }
 
